@@ -17,6 +17,9 @@ def run(F, rep):
     rep.engines.update(["E2-DT", "E2-BV", "E1"])
     rep.run(dt_tables.hash_step_table, F, rep, "C06.1")
     rep.run(dt_tables.graph_step_table, F, rep, "C06.1")
+    # nodes / k-mers stored in either orientation along a line: both routes, end to end
+    rep.run(dt_compress.kmer_chain_table, F, rep, "C06.1")
+    rep.run(dt_compress.graph_chain_table, F, rep, "C06.1")
     rep.run(dt_graph.find_link_table, F, rep, "C06.5")
     rep.run(dt_filter.filter_tables, F, rep, "C06.1f")
     rep.run(dt_graph.censor_tables, F, rep, "C06.1c")
